@@ -118,23 +118,26 @@ func zzC02CustomSpecValidOrRefused() {
 //verif:stub (*math/rand.Rand).Shuffle zzStubShuffleIdentity
 //verif:expect sent
 //verif:assume the seeded PRNG stream is arbitrary (every coin an SMT variable), permutations are the identity (C09's stubs)
-//verif:doc The three randomized ClientHelloIDs with a symbolic seed and the default weights, every coin arbitrary (quick: the eight coins that only add an independent extension or signature algorithm are tied to one bit): UClient + BuildHandshakeState succeed and Hello.Raw passes the strict ClientHello grammar and every per-extension body grammar.
+//verif:doc The three randomized ClientHelloIDs with a symbolic seed and the default weights, every structural coin arbitrary; the eight coins that only add an independent extension or signature algorithm are tied to one bit (thorough: two bits): UClient + BuildHandshakeState succeed and Hello.Raw passes the strict ClientHello grammar and every per-extension body grammar.
 func zzC02RandomizedSpecHelloValid() {
 	zzPrngs, zzPrngStreams = nil, nil
 	var seed PRNGSeed
 	copy(seed[:], verifBytes("seed", 32))
 	w := DefaultWeights
-	if !verifThorough() {
-		other := zzW("other-weights", false)
-		w.SigAndHashAlgos_Append_ECDSAWithSHA1 = other
-		w.SigAndHashAlgos_Append_ECDSAWithP521AndSHA512 = other
-		w.SigAndHashAlgos_Append_PSSWithSHA384_PSSWithSHA512 = other
-		w.CurveIDs_Append_CurveP521 = other
-		w.Extensions_Append_Status = other
-		w.Extensions_Append_SCT = other
-		w.Extensions_Append_Reneg = other
-		w.Extensions_Append_EMS = other
+	other := zzW("other-weights", false)
+	other2 := other
+	if verifThorough() {
+		// thorough: the eight independent add-on coins form two tied groups instead of one
+		other2 = zzW("other-weights-2", false)
 	}
+	w.SigAndHashAlgos_Append_ECDSAWithSHA1 = other
+	w.SigAndHashAlgos_Append_ECDSAWithP521AndSHA512 = other
+	w.SigAndHashAlgos_Append_PSSWithSHA384_PSSWithSHA512 = other
+	w.CurveIDs_Append_CurveP521 = other2
+	w.Extensions_Append_Status = other2
+	w.Extensions_Append_SCT = other2
+	w.Extensions_Append_Reneg = other2
+	w.Extensions_Append_EMS = other2
 	w.CipherSuites_Remove_RandomCiphers = 0
 	clients := []string{helloRandomized, helloRandomizedALPN, helloRandomizedNoALPN}
 	id := ClientHelloID{Client: clients[verifChoice("variant", 3)], Version: helloAutoVers, Seed: &seed, Weights: &w}
